@@ -86,6 +86,12 @@ func (s *sim) genuineCred(kind int, g *reg, resume bool) func() *cred {
 		if resume && g.cache != nil {
 			c.cache = g.cache
 			c.desc += " +session-cache"
+			if g.cacheUses > 0 {
+				// whether a session is then resumed is the gateway's decision (it is not, since tickets
+				// are disabled - fix 723f247); what the harness owes is the reconnecting client
+				s.r.Count("probe:reconnect-with-session-cache")
+			}
+			g.cacheUses++
 		}
 		return c
 	}
